@@ -435,7 +435,7 @@ class ExcelInPython:
         
     def _left(self, text, num_chars):
         if num_chars is None:
-            return text[0]
+            return text[0:1]
         if num_chars < 0:
             return '#ERROR!'
         if not text:
@@ -508,7 +508,7 @@ class ExcelInPython:
     
     def _right(self, text, num_chars):
         if num_chars is None:
-            return text[len(text) - 1]
+            return text[-1:]
         if num_chars < 0:
             return '#ERROR!'
         if not text:
